@@ -519,14 +519,8 @@ func RuleR2(r *Report, p *Program) {
 			if !strings.Contains(res, "Port:60000") {
 				bad = "default broadcast port is not 60000: " + cut(res, 120)
 			}
-			ipOK := false
-			for _, e := range pa.Events {
-				if e.Kind == "copy" && strings.Contains(e.Args[1].String(), "net.IPv4bcast") {
-					ipOK = true
-				}
-			}
-			if !ipOK && !strings.Contains(res, "net.IPv4bcast") && !strings.Contains(res, "255") {
-				bad = "default broadcast IP is not 255.255.255.255: " + cut(res, 120)
+			if !strings.Contains(res, "IP:[255,255,255,255]") && !strings.Contains(res, "IP:[0,0,0,0,0,0,0,0,0,0,255,255,255,255,255,255]") {
+				bad = "default broadcast IP is not 255.255.255.255: the resolved address is " + cut(res, 140) + " (net.IPv4bcast is the 16-byte form; its first four bytes are zero)"
 			}
 		}
 	}
